@@ -428,6 +428,39 @@ class BlockDrop(Mapping[str, object]):
             return Markupsafe(buf.getvalue())
         return buf.getvalue()
 
+    async def __getitem_async__(self, key: str) -> object:
+        """`block.super` during `render_async()`: render the parent block with
+        the async path too (async drops, async filters, `get_source_async()` of
+        the loader for include/render/extends inside the parent block)."""
+        if key != "super":
+            raise KeyError(key)
+
+        if not self.parent:
+            return self.context.env.undefined("super", token=self.token)
+
+        buf = self.context.get_output_buffer(self.buffer)
+        with self.context.extend(
+            {
+                "block": BlockDrop(
+                    token=self.parent.token,
+                    context=self.context,
+                    buffer=buf,
+                    name=self.parent.source_name,
+                    parent=self.parent.parent,
+                )
+            }
+        ):
+            try:
+                await self.parent.block.block.render_async(self.context, buf)
+            except LiquidError as err:
+                if not err.template_name and err.is_located_in(self.parent.token):
+                    err.template_name = self.parent.source_name
+                raise
+
+        if self.context.auto_escape:
+            return Markupsafe(buf.getvalue())
+        return buf.getvalue()
+
     def __len__(self) -> int:  # pragma: no cover
         return 1
 
